@@ -172,7 +172,21 @@ func runC04(c *Ctx, w *World, r *Report) {
 				if iv == nil || maskT == nil {
 					badF = "path is not i<<32 | mask"
 				} else {
+					// Mask[height] ^ Mask[tz]; with tz <= height (the level loop's range) the low mask is a sub-mask of the
+					// high one, so `&^` and `-` with Mask[height] on the left say the same
 					m1, m2, ok := asBin(maskT, token.XOR)
+					ordered := false
+					if !ok {
+						if m1, m2, ok = asBin(maskT, token.AND_NOT); !ok {
+							m1, m2, ok = asBin(maskT, token.SUB)
+						}
+						ordered = ok
+					}
+					if ok && ordered {
+						if ms, isM := fa.MaskOf(m1); !isM || ms.Kind != "low" || !haveH || !ms.N.Eq(heightL) {
+							ok = false
+						}
+					}
 					if !ok {
 						badF = "mask is not Mask[height] ^ Mask[tz]"
 					} else {
